@@ -22,6 +22,11 @@ PROBES = [
     ('reclaim', 'hp3;;swp0:0,acq1:1;acq0:0,cpy0:1,rst0,tch1', 5), ('reclaim', 'ebr0;;swp0:0,swp0:0;acq0:0,tch0', 5), ('reclaim', 'he3;;swp0:0,acq1:1;acqe0:0,tch0', 5),
     ('reclaim', 'stamp;;swp0:0,swp1:1;acq0:0,acq1:1', 7), ('reclaim', 'qsbr;;swp0:0;acq0:0,tch0', 5), ('reclaim', 'lfrc;;swp0:0,swp0:0;acq0:0,tch0', 4),
     ('reclaim', 'nebr0;;rgn1,acq0:0,rgn0;swp0:0,swp0:0', 5), ('reclaim', 'debra0;;swp0:0,acq1:1;acq0:0', 5),
+    # guard release / reclaim are operations of their own (call / ret around reset() and reclaim()): a leaving thread next to a thread stopped anywhere
+    # inside its region entry (stamp_it: between the inserting CAS and the store that completes the pending stamp) - complete bound-1 carriers
+    ('reclaim', 'stamp;;acq0:0,rst0;acq0:0,rst0', 1, 400), ('reclaim', 'stamp;;acq0:0,rst0;swp0:0', 2, 200),
+    ('reclaim', 'ebr0;;acq0:0,rst0;swp0:0,swp0:0', 3), ('reclaim', 'qsbr;;acq0:0,rst0;swp0:0,swp0:0', 3), ('reclaim', 'he3;;acq0:0,rst0;swp0:0,swp0:0', 3),
+    ('reclaim', 'hp3;;acq0:0,rst0;swp0:0,swp0:0', 3), ('reclaim', 'lfrc;;acq0:0,rst0;swp0:0,swp0:0', 3),
 ]
 BOUND = 400
 
